@@ -627,7 +627,7 @@ def build_search_model(spec):
     return m, spec
 
 
-def gen_config(rng, spec, k):
+def gen_config(rng, spec, k, allow_single=True):
     """one loss configuration on a model; everything needed to rebuild it is in the returned dict (JSON-able)"""
     nS, pn = len(spec["states"]), list(spec["porder"])
     nP = len(pn)
@@ -635,6 +635,8 @@ def gen_config(rng, spec, k):
     p = 1 if rng.random() < 0.35 else int(rng.integers(1, nS + 1))
     if rng.random() < 0.2 and p >= 2:
         n = p
+    if p == 1 and rng.random() < 0.15 and allow_single:
+        n = 1                 # a single observation of a single state
     cols = [int(v) for v in rng.permutation(nS)[:p]]
     names_none = bool(p == nS and rng.random() < 0.12)
     if names_none:
@@ -888,7 +890,7 @@ def run_search(ck):
             raise
         stats["models"] += 1
         for r in range(per_model):
-            c = gen_config(rng, spec, k * per_model + r)
+            c = gen_config(rng, spec, k * per_model + r, allow_single=(r >= 2))
             if r == 0 and c["p"] < 2 and len(spec["states"]) >= 2:       # make sure the column-vector probe runs on every model
                 c["p"], c["cols"] = 2, [int(v) for v in rng.permutation(len(spec["states"]))[:2]]
                 c["noise"] = rng.uniform(-0.3, 0.3, size=(c["n"], 2)).tolist()
